@@ -30,6 +30,45 @@ def _corpus(mod):
     return out
 
 
+class _Hang(BaseException):
+    pass
+
+
+def _generate_watched(mod, rng, tier, violations, prop, seed):
+    """Pull cases out of the generator under a watchdog: if the implementation does not come back from one
+    case within VERIF_CASE_TIMEOUT seconds the run reports a hang (termination is part of every property:
+    the model is total, so a hang is a model/implementation disagreement with no result to compare)."""
+    import signal
+    limit = int(os.environ.get("VERIF_CASE_TIMEOUT", "30"))
+
+    def on_alarm(_s, _f):
+        raise _Hang()
+    old = signal.signal(signal.SIGALRM, on_alarm)
+    out = []
+    it = iter(mod.generate(rng, tier))
+    try:
+        while True:
+            signal.alarm(limit)
+            try:
+                c = next(it)
+            except StopIteration:
+                break
+            out.append(c)
+    except _Hang:
+        import traceback
+        tb = traceback.format_exc()[-1500:]
+        path = common.write_replay(prop, {
+            "property": prop, "why": f"implementation did not return within {limit}s while case #{len(out)} was being "
+                                     "generated (hang); the model is a total function",
+            "seed": seed, "tier": tier, "case_index": len(out),
+            "last_completed_case": out[-1].desc if out else None, "traceback_tail": tb})
+        violations.append(("hang", path, ""))
+    finally:
+        signal.alarm(0)
+        signal.signal(signal.SIGALRM, old)
+    return out
+
+
 def run_property(modname: str, tier: str, seed: int, replay: str | None = None) -> int:
     t0 = time.time()
     mod = importlib.import_module(modname)
@@ -74,7 +113,7 @@ def run_property(modname: str, tier: str, seed: int, replay: str | None = None) 
                 print(f"replay: recorded case not reproduced by seed {rseed}/{rtier}; running the whole recorded run")
                 cases = list(mod.generate(random.Random(rseed * 1000003 + sum(map(ord, prop))), rtier))
     else:
-        cases = _corpus(mod) + list(mod.generate(rng, tier))
+        cases = _corpus(mod) + _generate_watched(mod, rng, tier, violations, prop, seed)
     prelude = getattr(mod, "PRELUDE", "")
     if callable(prelude):
         prelude = prelude()
